@@ -381,7 +381,10 @@ def run(ctx):
     # ---- 4. left/right symmetry of the guarded effects of every core function that asks "which side am I on" -------
     n_sym = 0
     for t in trees:
+        names_t = {nm for (_, nm) in cores[t]}
         for (kind, name), f in sorted(cores[t].items()):
+            if swap_lr(name) != name and swap_lr(name) in names_t:
+                continue        # one half of a mirror pair: held to its twin (section 2), not to itself
             has, sym, d = G.self_symmetric(G.gef(prog, f))
             if not has:
                 continue
